@@ -89,3 +89,93 @@ func SetV2Temporal(t *m2.Temporal, x [3]int) {
 func SetV2Env(e *m2.Environmental, x [5]int) {
 	e.CDP, e.TD, e.CR, e.IR, e.AR = V2CDP[x[0]], V2TD[x[1]], V2CR[x[2]], V2IR[x[3]], V2AR[x[4]]
 }
+
+// ---- generic access by metric name and specification index ---------------------------
+
+// V3Value returns the integer value of the library constant bound to the idx-th code of
+// the named v3 metric ("Ver" for the version); ok=false for unknown names.
+func V3Value(name string, idx int) (int64, bool) {
+	switch name {
+	case "Ver":
+		return int64(V3Ver[idx]), true
+	case "AV":
+		return int64(V3AV[idx]), true
+	case "AC":
+		return int64(V3AC[idx]), true
+	case "PR":
+		return int64(V3PR[idx]), true
+	case "UI":
+		return int64(V3UI[idx]), true
+	case "S":
+		return int64(V3S[idx]), true
+	case "C":
+		return int64(V3C[idx]), true
+	case "I":
+		return int64(V3I[idx]), true
+	case "A":
+		return int64(V3A[idx]), true
+	case "E":
+		return int64(V3E[idx]), true
+	case "RL":
+		return int64(V3RL[idx]), true
+	case "RC":
+		return int64(V3RC[idx]), true
+	case "CR":
+		return int64(V3CR[idx]), true
+	case "IR":
+		return int64(V3IR[idx]), true
+	case "AR":
+		return int64(V3AR[idx]), true
+	case "MAV":
+		return int64(V3MAV[idx]), true
+	case "MAC":
+		return int64(V3MAC[idx]), true
+	case "MPR":
+		return int64(V3MPR[idx]), true
+	case "MUI":
+		return int64(V3MUI[idx]), true
+	case "MS":
+		return int64(V3MS[idx]), true
+	case "MC":
+		return int64(V3MC[idx]), true
+	case "MI":
+		return int64(V3MI[idx]), true
+	case "MA":
+		return int64(V3MA[idx]), true
+	}
+	return 0, false
+}
+
+func V2Value(name string, idx int) (int64, bool) {
+	switch name {
+	case "AV":
+		return int64(V2AV[idx]), true
+	case "AC":
+		return int64(V2AC[idx]), true
+	case "Au":
+		return int64(V2Au[idx]), true
+	case "C":
+		return int64(V2C[idx]), true
+	case "I":
+		return int64(V2I[idx]), true
+	case "A":
+		return int64(V2A[idx]), true
+	case "E":
+		return int64(V2E[idx]), true
+	case "RL":
+		return int64(V2RL[idx]), true
+	case "RC":
+		return int64(V2RC[idx]), true
+	case "CDP":
+		return int64(V2CDP[idx]), true
+	case "TD":
+		return int64(V2TD[idx]), true
+	case "CR":
+		return int64(V2CR[idx]), true
+	case "IR":
+		return int64(V2IR[idx]), true
+	case "AR":
+		return int64(V2AR[idx]), true
+	}
+	return 0, false
+}
